@@ -3942,6 +3942,7 @@ def status(
                 preload_index,
                 trust_ctime,
                 max_stat,
+                config.get_boolean(b"core", b"filemode", os.name != "nt"),
             )
         )
 
